@@ -9,3 +9,8 @@ claim("C02",
       "Decides that every per-type UpdateList method wires its own list field, its own parameters and the success&&persist condition into the generic engine (5 obligations x 87 siblings), that no partial/delete filter or remoteWrite/persist flag is cross-wired anywhere in the repository, that key, selector and elements types satisfy the preconditions of the reflective engine, that the engine runs delete, selector, merge and sort in that order on each other's output, and that the store replaces only when no filter is present. Necessary conditions of the update rules; the value-level fold is not decided.",
       "Trusted: go/types, go/ssa (x/tools v0.29.0). The merge/hash/sort logic inside the engine is computed by reflection on values and is outside what these rules decide.",
       "DESIGN.md §4 C02")
+claim("C17",
+      "interprocedural lockset analysis on SSA (guarded-by inference, atomic consistency, RW mode, lock pairing, lock-order cycle detection)",
+      "Decides, for every struct field of package spine and every function of spine and model, that locking is consistent: each field with a locked write is accessed only under the lock common to its accesses (inferred on every run, 21 guarded fields and 4 atomic fields on the pinned tree), no write or mutating library call happens under a read lock, every Lock is released on every path, and the held->acquired order over all 20+ mutexes along synchronous call edges (through interfaces, promoted-method wrappers, generic instantiations and synchronously run closures) is acyclic. A lockset argument: necessary for, not equal to, freedom from data races and deadlocks.",
+      "Trusted: go/ssa, the call graph (static, VTA, CHA fallback); go statements and timers start lock-free contexts; external interfaces (SHIP writer, application callbacks) do not call back synchronously. Never-guarded mutable fields are recorded as known findings.",
+      "DESIGN.md §4 C17")
